@@ -131,6 +131,9 @@ func (x *Exec) set(st *State, name string, t string) {
 	st.vars[name] = Term{S: t, Sort: x.varSort(name)}
 	if strings.HasPrefix(name, "HA.") {
 		x.reseed(name, t)
+		if !had && x.elemLinksOn() {
+			prev, had = Term{S: x.initConst(name)}, true
+		}
 		if had {
 			x.linkHeaps(name, prev.S, t)
 		}
